@@ -2,12 +2,12 @@
 from common import *
 W = 'verif_frag::walk18::'
 OBLIGATIONS = [
-    ob('C18.walk.follow.bfs', W + 'c18_walk_follow_bfs', 'the WHOLE real visit_dir and ok_to_visit_dir (verbatim on a scripted ten-node file system), `symlinks` on, breadth-first: the search goes through a link with an absolute target to an ANCESTOR (a cycle) and a link with a RELATIVE target to a directory outside - and less deep than - the root; every entry under the root or behind a link is listed exactly once, the ancestor is not replayed, the traversal terminates (unwinding assertions) and no error is counted', units=['walk'], complete=False, bound='one scripted tree (10 nodes: 3 levels, 2 links)'),
-    ob('C18.walk.follow.dfs', W + 'c18_walk_follow_dfs', 'the same, depth-first', units=['walk'], complete=False, bound='one scripted tree (10 nodes: 3 levels, 2 links)'),
+    ob('C18.walk.follow.bfs', W + 'c18_walk_follow_bfs', 'the WHOLE real visit_dir and ok_to_visit_dir (verbatim on a scripted ten-node file system), `symlinks` on, breadth-first: the search goes through a link with an absolute target to an ANCESTOR (a cycle) and a link with a RELATIVE target to a directory outside - and less deep than - the root; a link to a regular file and a dangling link are just listed; every entry under the root or behind a link is listed exactly once, the ancestor is not replayed, the traversal terminates (unwinding assertions) and no error is counted', units=['walk'], complete=False, bound='one scripted tree (12 nodes: 3 levels, 4 links)'),
+    ob('C18.walk.follow.dfs', W + 'c18_walk_follow_dfs', 'the same, depth-first', units=['walk'], complete=False, bound='one scripted tree (12 nodes: 3 levels, 4 links)'),
     ob('C18.walk.nofollow', W + 'c18_walk_nofollow', 'the same world without the option: links are listed once, no row comes from behind a link, no error', units=['walk'], complete=False, bound='one scripted tree'),
     ob('C18.ok_to_visit', 'verif_frag::traversal::c01_ok_to_visit', 'ok_to_visit_dir (verbatim on a shim world): a directory entry is entered iff its own inode was not seen before and it is not a link or links are followed; only its own inode is recorded (same harness as C01.ok_to_visit)', units=['traversal']),
 ]
 CANARIES = [dict(harness=W + 'canary_walk18_must_fail', units=['walk']), dict(harness='verif_frag::traversal::canary_traversal_must_fail', units=['traversal'])]
 ASSUMPTIONS = ['the scripted file system stands for the OS: read_dir lists children in a fixed order, read_link returns the stored target (absolute, or relative to the directory of the link), canonicalize succeeds for existing nodes']
-NOT_COVERED = ['other link graphs (mutual links, chains, self-links, dangling links), links to files', 'the OS itself; `.` or relative roots', 'depth windows behind links (the level of what is behind a link is computed from its canonical depth, not from the position of the link)']
+NOT_COVERED = ['other link graphs (mutual links, chains, self-links)', 'the OS itself; `.` or relative roots', 'depth windows behind links (the level of what is behind a link is computed from its canonical depth, not from the position of the link)']
 HARNESS_TIMEOUT = 900
